@@ -122,14 +122,17 @@ template <class OT, class P> inline void r(OS& os, const Tins::PDUOption<OT, P>&
     os << ")";
 }
 
-#define VR_BEGIN(T) inline void r(OS& os, const T& v) { os << "{";
-#define VR(f) os << #f "="; r(os, v.f); os << ";";
-#define VR_ARR(f) os << #f "="; rhex(os, (const uint8_t*)v.f, sizeof v.f); os << ";";
-#define VR_END os << "}"; }
+#define VSTRUCT_BEGIN(T) inline void r(OS& os, const T& v) { os << "{";
+#define VF(f) os << #f "="; r(os, v.f); os << ";";
+#define VFA(f) os << #f "="; rhex(os, (const uint8_t*)v.f, sizeof v.f); os << ";";
+#define VSTRUCT_END os << "}"; }
+#include "structs.inc"
+#undef VSTRUCT_BEGIN
+#undef VF
+#undef VFA
+#undef VSTRUCT_END
 
 inline void r(OS& os, const Tins::IP::option_identifier& v) { os << (int)v.copied << ":" << (int)v.op_class << ":" << (int)v.number; }
-VR_BEGIN(Tins::IP::security_type) VR(security) VR(compartments) VR(handling_restrictions) VR(transmission_control) VR_END
-VR_BEGIN(Tins::IP::generic_route_option_type) VR(pointer) VR(routes) VR_END
 inline void r(OS& os, const Tins::TCP::AltChecksums& v) { os << (int)v; }
 inline void r(OS& os, const Tins::ICMPExtension& v) {
     os << "ext(" << (int)v.extension_class() << "," << (int)v.extension_type() << ",";
@@ -155,51 +158,10 @@ inline void r(OS& os, const Tins::DNS::resource& v) {
     os << "rr{"; r(os, v.dname()); os << ","; r(os, v.data());
     os << "," << v.query_type() << "," << v.query_class() << "," << v.ttl() << "," << v.preference() << "}";
 }
-VR_BEGIN(Tins::DHCPv6::ia_na_type) VR(id) VR(t1) VR(t2) VR(options) VR_END
-VR_BEGIN(Tins::DHCPv6::ia_ta_type) VR(id) VR(options) VR_END
-VR_BEGIN(Tins::DHCPv6::ia_address_type) VR(address) VR(preferred_lifetime) VR(valid_lifetime) VR(options) VR_END
-VR_BEGIN(Tins::DHCPv6::authentication_type) VR(protocol) VR(algorithm) VR(rdm) VR(replay_detection) VR(auth_info) VR_END
-VR_BEGIN(Tins::DHCPv6::status_code_type) VR(code) VR(message) VR_END
-VR_BEGIN(Tins::DHCPv6::vendor_info_type) VR(enterprise_number) VR(data) VR_END
-VR_BEGIN(Tins::DHCPv6::user_class_type) VR(data) VR_END
-VR_BEGIN(Tins::DHCPv6::vendor_class_type) VR(enterprise_number) VR(vendor_class_data) VR_END
-VR_BEGIN(Tins::DHCPv6::duid_type) VR(id) VR(data) VR_END
 inline void r(OS& os, const Tins::Dot11ManagementFrame::capability_information& v) {
     os << "cap{" << v.ess() << v.ibss() << v.cf_poll() << v.cf_poll_req() << v.privacy() << v.short_preamble() << v.pbcc() << v.channel_agility()
        << v.spectrum_mgmt() << v.qos() << v.sst() << v.apsd() << v.radio_measurement() << v.dsss_ofdm() << v.delayed_block_ack() << v.immediate_block_ack() << "}";
 }
-VR_BEGIN(Tins::Dot11ManagementFrame::fh_params_set) VR(dwell_time) VR(hop_set) VR(hop_pattern) VR(hop_index) VR_END
-VR_BEGIN(Tins::Dot11ManagementFrame::cf_params_set) VR(cfp_count) VR(cfp_period) VR(cfp_max_duration) VR(cfp_dur_remaining) VR_END
-VR_BEGIN(Tins::Dot11ManagementFrame::ibss_dfs_params) VR(dfs_owner) VR(recovery_interval) VR(channel_map) VR_END
-VR_BEGIN(Tins::Dot11ManagementFrame::country_params) VR(country) VR(first_channel) VR(number_channels) VR(max_transmit_power) VR_END
-VR_BEGIN(Tins::Dot11ManagementFrame::fh_pattern_type) VR(flag) VR(number_of_sets) VR(modulus) VR(offset) VR(random_table) VR_END
-VR_BEGIN(Tins::Dot11ManagementFrame::channel_switch_type) VR(switch_mode) VR(new_channel) VR(switch_count) VR_END
-VR_BEGIN(Tins::Dot11ManagementFrame::quiet_type) VR(quiet_count) VR(quiet_period) VR(quiet_duration) VR(quiet_offset) VR_END
-VR_BEGIN(Tins::Dot11ManagementFrame::bss_load_type) VR(station_count) VR(available_capacity) VR(channel_utilization) VR_END
-VR_BEGIN(Tins::Dot11ManagementFrame::tim_type) VR(dtim_count) VR(dtim_period) VR(bitmap_control) VR(partial_virtual_bitmap) VR_END
-VR_BEGIN(Tins::Dot11ManagementFrame::vendor_specific_type) VR(oui) VR(data) VR_END
-VR_BEGIN(Tins::ICMPv6::addr_list_type) VR_ARR(reserved) VR(addresses) VR_END
-VR_BEGIN(Tins::ICMPv6::naack_type) VR(code) VR(status) VR_ARR(reserved) VR_END
-VR_BEGIN(Tins::ICMPv6::lladdr_type) VR(option_code) VR(address) VR_END
-VR_BEGIN(Tins::ICMPv6::prefix_info_type) VR(prefix_len) VR(A) VR(L) VR(valid_lifetime) VR(preferred_lifetime) VR(reserved2) VR(prefix) VR_END
-VR_BEGIN(Tins::ICMPv6::rsa_sign_type) VR_ARR(key_hash) VR(signature) VR_END
-VR_BEGIN(Tins::ICMPv6::ip_prefix_type) VR(option_code) VR(prefix_len) VR(address) VR_END
-VR_BEGIN(Tins::ICMPv6::map_type) VR(dist) VR(pref) VR(r) VR(valid_lifetime) VR(address) VR_END
-VR_BEGIN(Tins::ICMPv6::route_info_type) VR(prefix_len) VR(pref) VR(route_lifetime) VR(prefix) VR_END
-VR_BEGIN(Tins::ICMPv6::recursive_dns_type) VR(lifetime) VR(servers) VR_END
-VR_BEGIN(Tins::ICMPv6::handover_key_req_type) VR(AT) VR(key) VR_END
-VR_BEGIN(Tins::ICMPv6::handover_key_reply_type) VR(AT) VR(key) VR(lifetime) VR_END
-VR_BEGIN(Tins::ICMPv6::handover_assist_info_type) VR(option_code) VR(hai) VR_END
-VR_BEGIN(Tins::ICMPv6::mobile_node_id_type) VR(option_code) VR(mn) VR_END
-VR_BEGIN(Tins::ICMPv6::dns_search_list_type) VR(lifetime) VR(domains) VR_END
-VR_BEGIN(Tins::ICMPv6::timestamp_type) VR_ARR(reserved) VR(timestamp) VR_END
-VR_BEGIN(Tins::ICMPv6::shortcut_limit_type) VR(limit) VR(reserved1) VR(reserved2) VR_END
-VR_BEGIN(Tins::ICMPv6::new_advert_interval_type) VR(reserved) VR(interval) VR_END
-VR_BEGIN(Tins::ICMPv6::multicast_address_record) VR(type) VR(multicast_address) VR(sources) VR(aux_data) VR_END
-VR_BEGIN(Tins::PPPoE::vendor_spec_type) VR(vendor_id) VR(data) VR_END
-VR_BEGIN(Tins::RadioTap::mcs_type) VR(known) VR(flags) VR(mcs) VR_END
-VR_BEGIN(Tins::RadioTap::xchannel_type) VR(flags) VR(frequency) VR(channel) VR(max_power) VR_END
-VR_BEGIN(Tins::STP::bpdu_id_type) VR(priority) VR(ext_id) VR(id) VR_END
 
 template <class T>
 inline std::string rstr(const T& v) {
